@@ -99,5 +99,12 @@ func (b *Stack[T]) WaitSizeIsAbove(threshold int) {
 }
 
 func (b *Stack[T]) SignalShutdown() {
+	// pass through the lock before waking the waiters: a goroutine that has just evaluated its wait condition in PopOrWait
+	// but is not parked yet still holds the lock - a broadcast at that moment would be lost and the goroutine would sleep
+	// until the next Push. Callers must not hold a lock that a wait condition acquires.
+	b.mutex.Lock()
+	//nolint:staticcheck // the critical section is empty on purpose
+	b.mutex.Unlock()
+
 	b.elementAdded.Broadcast()
 }
